@@ -1,4 +1,5 @@
 import ConserveModel.Proofs.StitchStore
+import ConserveModel.Proofs.StitchRule
 import ConserveModel.Proofs.StoreNoDup
 import ConserveModel.Proofs.StoreLemmas
 /-
@@ -80,6 +81,9 @@ theorem SameBand.bandPresent (h : SameBand s s' b) : bandPresent s' b = bandPres
 
 theorem SameBand.isComplete (h : SameBand s s' b) : isComplete s' b = isComplete s b := by
   unfold Conserve.isComplete; rw [h.tail]
+
+theorem SameBand.headLost (h : SameBand s s' b) : headLost s' b = headLost s b := by
+  unfold Conserve.headLost; rw [h.bandPresent, h.hunk 0]
 
 theorem SameBand.bandReadable (h : SameBand s s' b) : bandReadable s' b = bandReadable s b := by
   unfold Conserve.bandReadable; rw [h.head, h.index]
@@ -188,10 +192,19 @@ theorem mem_chain_le {s : Store} {n b : Nat} (h : b ∈ chain s n) : b ≤ n := 
     · cases h
     · exact Nat.le_of_lt (mem_chainBelow_lt h)
 
+theorem errorsBelow_congr (n : Nat) (h : ∀ b, b < n → SameBand s s' b) :
+    errorsBelow s' n = errorsBelow s n := by
+  induction n with
+  | zero => rfl
+  | succ b ih =>
+    have hb := h b (Nat.lt_succ_self b)
+    have ih' := ih (fun c hc => h c (Nat.lt_succ_of_lt hc))
+    simp only [errorsBelow, hb.bandPresent, hb.bandErrors nd nd', hb.isComplete, hb.headLost, ih']
+
 theorem listErrors_congr (n : Nat) (h : ∀ b, b ≤ n → SameBand s s' b) : listErrors s' n = listErrors s n := by
-  unfold listErrors
-  rw [chain_congr n h]
-  exact flatMap_congr' (fun b hb => (h b (mem_chain_le hb)).bandErrors nd nd')
+  have hn := h n (Nat.le_refl n)
+  simp only [listErrors, hn.bandErrors nd nd', hn.isComplete,
+    errorsBelow_congr nd nd' n (fun b hb => h b (Nat.le_of_lt hb))]
 
 end
 
@@ -367,10 +380,13 @@ theorem bandErrors_ne_nil {s : Store} {b n : Nat} (hr : bandReadable s b = true)
 
 theorem listErrors_ne_nil {s : Store} {v b : Nat} (hb : b ∈ chain s v) (h : bandErrors s b ≠ []) :
     listErrors s v ≠ [] := by
-  unfold listErrors
   intro hnil
-  rw [List.flatMap_eq_nil_iff] at hnil
-  exact h (hnil b hb)
+  cases hbe : bandErrors s b with
+  | nil => exact h hbe
+  | cons e es =>
+    have := mem_listErrors_of_chain hb (by rw [hbe]; exact List.mem_cons_self ..)
+    rw [hnil] at this
+    cases this
 
 theorem self_mem_chain (s : Store) (n : Nat) : n ∈ chain s n := by simp [chain]
 
